@@ -81,7 +81,7 @@ func pexpr(name string, t *Task) string {
 
 func yq(s string) string { return "'" + strings.ReplaceAll(s, "'", "''") + "'" }
 
-var matKeys = []string{"A", "B", "C"}
+var matKeys = []string{"A", "B", "C", "D", "E"}
 
 // matYAML renders for: {matrix: ...}; itemExpr is the template giving the concatenated item.
 func matYAML(rows [][]string) string {
